@@ -280,8 +280,8 @@ def lit_value(v):
 
 
 # ------------------------------------------------------------------ value pools
-TEXT_POOL = ["", "a", "ab", "abc", "1", "1.0", "-7", "null", "true", "None", "True", "[1,2]", '{"a":1}', "(1, 2)",
-             "2020-01-01", "12:30:00+05:00", "PT1S", " 1 ", "é", "1e3", "nan", "0x10", "a,b",
+TEXT_POOL = ["null", "1", "None", "ab", "", "[1,2]", "true", '{"a":1}', "2020-01-01", "1.0", "a", "abc", "-7", "True",
+             "(1, 2)", "12:30:00+05:00", "PT1S", " 1 ", "\u00e9", "1e3", "nan", "0x10", "a,b",
              "12345678-1234-5678-1234-567812345678"]
 
 LEAF_POOLS = {
@@ -376,9 +376,9 @@ def values(t: dict, env: Env, rng, n: int = 4, depth: int = 0) -> list:
     if k == "union":
         outs = []
         for x in t["xs"]:
-            vs = values(x, env, rng, 2, depth + 1)
-            outs += vs[:2]
-        return outs[: max(n, len(t["xs"]))]
+            vs = values(x, env, rng, 3, depth + 1)
+            outs += vs[:3]
+        return outs[: max(n, 3 * len(t["xs"]))]
     if k == "cls":
         return class_values(t["c"], env, rng, n, depth)
     if k in ("any", "object"):
